@@ -29,8 +29,14 @@ def lit_sql(v, c, style=None):
     raise Unrenderable(f"literal class {c}")
 
 
+# order-preserving (bytewise) values that differ only in trailing NUL bytes: inline strings are compared through a zero-padded prefix
+NULTEXTS = ["", "\x00", "\x00\x00", "a", "a\x00", "a\x00\x00", "b", "b\x00"]
+
+
 def text_of(n, style=None):
     s = TEXTS[n]
+    if style and style.get("nultext"):
+        return NULTEXTS[n]
     if style and style.get("longtext"):
         # > 12 bytes so the value is stored out of line; order-preserving.
         return "text-value-xx" + s * 3
@@ -38,6 +44,8 @@ def text_of(n, style=None):
 
 
 def text_index(s, style=None):
+    if style and style.get("nultext"):
+        return NULTEXTS.index(s) if s in NULTEXTS else None
     if style and style.get("longtext"):
         if s.startswith("text-value-xx") and len(s) == 16:
             s = s[13]
@@ -126,6 +134,7 @@ class Renderer:
         """dbc: table name -> {'names': [...], 'cols': [classes]}"""
         self.dbc = dbc
         self.style = style or {}
+        self.mat = "MATERIALIZED " if self.style.get("materialized_cte") else ""
         self.n = 0
         self.ctes = {}       # visible CTE name -> (unique sql name, width)
         self.hoisted = []    # (unique name, body sql), in dependency order
@@ -404,6 +413,8 @@ class Renderer:
             kw = {"inner": "INNER JOIN", "left": "LEFT JOIN", "right": "RIGHT JOIN",
                   "semi": "SEMI JOIN"}[jt]
             on = self.expr(q["on"], frames + [both])
+            if self.style.get("bare_on") and q["on"].get("k") in ("and", "or") and on.startswith("(") and on.endswith(")"):
+                on = on[1:-1]          # ON (l) AND (r): the conjunction itself is not parenthesised
             b.frm = f"{lb.frm} {kw} {rtxt} ON {on}"
             b.cols = lb.cols if jt == "semi" else both
         b.single = False
@@ -443,7 +454,7 @@ class Renderer:
         sel = ", ".join(f"{c} AS c{i+1}" for i, c in enumerate(cols))
         s = ""
         if b.ctes:
-            s += "WITH " + ", ".join(f"{n} AS ({body})" for n, body in b.ctes) + " "
+            s += "WITH " + ", ".join(f"{n} AS {self.mat}({body})" for n, body in b.ctes) + " "
         s += "SELECT " + ("DISTINCT " if b.distinct else "") + sel
         if b.frm:
             s += " FROM " + b.frm
@@ -472,7 +483,7 @@ def render_query(q, dbc, style=None):
     b = r.block(q, [])
     sql = r.finalize(b)
     if r.hoisted:
-        sql = "WITH " + ", ".join(f"{n} AS ({body})" for n, body in r.hoisted) + " " + sql
+        sql = "WITH " + ", ".join(f"{n} AS {r.mat}({body})" for n, body in r.hoisted) + " " + sql
     return sql
 
 
